@@ -9,6 +9,10 @@
 //        from the specification), read with the library's Demuxer
 //   (3 wire (seg sizes...) cut fault (ops...))  arbitrary bytes, explicit call sequence:
 //        (0) ReadHeader (1) ReadTagHeader (2 n) ReadTag(n) (4) ReadTagHeader+ReadTag(size)
+//   (5 hv ha type ts n seed seg)  one tag with an n-byte pattern body (n up to 2^24-1), written by
+//        the library AND by the reference writer, both read back through seg-byte reads; the
+//        observation is the bytes around the body only: (header taghdr trailer wirelen (writes))
+//        -- the model computes them from n; all body bytes are judged by the direct oracles
 // Observation kinds 1/2: (wire (write sizes...) demux) with demux = (0 (ver hv ha) (tags...) where err)
 // | (1 err) | (2); kind 3: one entry per call until the first error.
 package flv
@@ -123,6 +127,11 @@ func (w *vC09Writer) Write(p []byte) (int, error) {
 }
 
 func vC09Mux(hv, ha bool, tags []vC09Tag) (wire []byte, writes []int, err error) {
+	defer func() {
+		if x := recover(); x != nil {
+			err = fmt.Errorf("muxer panicked: %v", x)
+		}
+	}()
 	w := &vC09Writer{}
 	m, _ := NewMuxer(w)
 	defer m.Close()
@@ -363,6 +372,69 @@ func vC09Run(k *vKit, c vSx) (obs vSx, fo, fd string, nontrivial bool) {
 		}
 		k.count("segmentation", segb)
 		return vL(vB(wire), vLs(writes), res.obs()), fo, fd, nontrivial
+	case 5:
+		if len(c.l) != 8 {
+			return vL(vZ(-1)), "", "", false
+		}
+		hv, ha := c.l[1].i64() != 0, c.l[2].i64() != 0
+		n := c.l[5].int()
+		if n < 0 || n > 1<<24+64 {
+			return vL(vZ(-1)), "", "", false
+		}
+		tags := []vC09Tag{{uint8(c.l[3].u64()), uint32(c.l[4].u64()), vC09Pattern(n, c.l[6].int())}}
+		var sizes []int
+		if c.l[7].int() > 0 {
+			sizes = []int{c.l[7].int()}
+		}
+		ref := vC09Reference(hv, ha, tags)
+		wire, ws, err := vC09Mux(hv, ha, tags)
+		if err != nil {
+			bad("mux-error", err.Error())
+		}
+		if !bytes.Equal(wire, ref) {
+			d := "lengths differ"
+			if len(wire) == len(ref) {
+				for i := range wire {
+					if wire[i] != ref[i] {
+						d = fmt.Sprintf("first difference at offset %d of %d: wrote %02x, layout has %02x", i, len(wire), wire[i], ref[i])
+						break
+					}
+				}
+			}
+			bad("layout", fmt.Sprintf("muxer output (%d bytes) differs from the FLV v1 reference layout (%d bytes): %s", len(wire), len(ref), d))
+		}
+		for pass, file := range [][]byte{wire, ref} {
+			oname := "roundtrip"
+			if pass == 1 {
+				oname = "spec-read"
+			}
+			res := vC09Demux(vC09MkReader(file, sizes, -1, -1))
+			switch {
+			case res.panicked:
+				bad("no-panic", "demuxer panicked")
+			case res.hdrErr != 0:
+				bad(oname, fmt.Sprintf("header rejected with error %d", res.hdrErr))
+			case res.ver != 1 || res.hv != hv || res.ha != ha:
+				bad(oname, fmt.Sprintf("header read back as version %d video %v audio %v", res.ver, res.hv, res.ha))
+			default:
+				if d := vC09SameTags(res.tags, tags); d != "" {
+					bad(oname, d)
+				} else if res.where != 0 || res.end != 1 {
+					bad(oname, fmt.Sprintf("read loop ended with error %d in call %d", res.end, res.where))
+				}
+			}
+		}
+		var writes []vSx
+		for _, x := range ws {
+			writes = append(writes, vI(x))
+		}
+		var hdr, th, tr []byte
+		if len(wire) >= 13+11+4 {
+			hdr, th, tr = wire[:13], wire[13:24], wire[len(wire)-4:]
+		}
+		k.count("kind", "5-large-body")
+		k.count("body-size", vSizeBucket(n))
+		return vL(vB(hdr), vB(th), vB(tr), vI(len(wire)), vLs(writes)), fo, fd, n >= 1<<16 || c.l[4].u64() >= 1<<24
 	case 3:
 		if len(c.l) != 6 {
 			return vL(vZ(-1)), "", "", false
@@ -458,10 +530,10 @@ func vC09GenTags(r *vRng, k *vKit) []vSx {
 		case 1:
 			size = 1
 		case 2:
-			size = r.pickInt(255, 256, 257)
+			size = r.pickInt(255, 256, 257, 244, 245, 246)
 		case 3:
 			if big < 1 && r.chance(1, 3) {
-				size = r.pickInt(65535, 65536, 65537)
+				size = r.pickInt(65535, 65536, 65537, 65524, 65525, 65526)
 				big++
 			} else {
 				size = r.rng(1000, 5000)
@@ -588,8 +660,9 @@ func vC09Gen(r *vRng, k *vKit) vSx {
 // deterministic boundary sweep: every flag combination x boundary size x boundary timestamp,
 // whole and 1-byte reads, library-written and reference-written
 func vC09Boundary(thorough bool) []vSx {
-	sizes := []int{0, 1, 255, 256}
-	tss := []uint64{0, 1<<24 - 1, 1 << 24, 1<<24 + 1, 1<<32 - 1}
+	// 244/245: PreviousTagSize = 11 + size crosses 2^8; 255/256: the size field does
+	sizes := []int{0, 1, 244, 245, 255, 256}
+	tss := []uint64{0, 255, 256, 65535, 65536, 1<<24 - 1, 1 << 24, 1<<24 + 1, 1 << 31, 1<<32 - 1}
 	var out []vSx
 	pat := func(n int) []byte {
 		b := make([]byte, n)
@@ -612,7 +685,8 @@ func vC09Boundary(thorough bool) []vSx {
 			}
 		}
 	}
-	bigs := []int{65535, 65536}
+	// 65524/65525: 11 + size crosses 2^16; 65535/65536: the size field does
+	bigs := []int{65524, 65525, 65535, 65536}
 	for i, sz := range bigs {
 		for kind := 1; kind <= 2; kind++ {
 			tags := []vSx{vL(vI(9), vU(1<<32-1), vC09PatBody(sz, 3+i)), vL(vI(8), vU(1<<24), vB(pat(3)))}
@@ -622,6 +696,12 @@ func vC09Boundary(thorough bool) []vSx {
 			}
 			out = append(out, vL(vI(kind), vI(1), vI(1), vLs(tags), vLs(seg), vI(-1), vI(-1)))
 		}
+	}
+	// the top of the 24-bit range, where PreviousTagSize = 11 + size needs its fourth byte
+	// (2^24-12 -> 00ffffff, 2^24-11 -> 01000000), up to the largest body 2^24-1; library- and
+	// reference-written, read back through 1 MiB / 4 KiB / single reads
+	for i, sz := range []int{1<<24 - 12, 1<<24 - 11, 1<<24 - 10, 1<<24 - 2, 1<<24 - 1, 1<<16 - 11, 245} {
+		out = append(out, vL(vZ(5), vI(i&1), vI((i>>1)&1), vI(8+i%2), vU(tss[(3*i+9)%len(tss)]), vI(sz), vI(17*i+5), vI([]int{1 << 20, 4096, 0}[i%3])))
 	}
 	if thorough {
 		// the largest body a tag can carry; library-written only: its bytes are compared with the
@@ -636,11 +716,13 @@ func TestVerifC09(t *testing.T) {
 	k := vNewKit(t, "C09")
 	defer k.close()
 	runOne := func(c vSx) {
-		obs, fo, fd, nt := vC09Run(k, c)
-		idx := k.record(c, obs, nt)
-		if fo != "" {
-			k.fail(idx, c.size(), fo, "", fd)
-		}
+		k.safely(c, func() {
+			obs, fo, fd, nt := vC09Run(k, c)
+			idx := k.record(c, obs, nt)
+			if fo != "" {
+				k.fail(idx, c.size(), fo, "", fd)
+			}
+		})
 	}
 	if k.replay != nil {
 		runOne(*k.replay)
